@@ -155,7 +155,12 @@ def check_leapfrog_pairs(run, it):
             tag = P + f"{cls}.{m_expl}"
             back_calls = []
 
-            def impl_contract(ex, self_, state, tt):
+            extra_args = []
+
+            def impl_contract(ex, self_, state, tt, *more, **kwmore):
+                # the check must compute what a reverse step from the new state would compute: the implicit sub-step is called exactly as
+                # _step calls it -- (state, time) and nothing that steers the solve (e.g. an initial guess at the value it is compared with)
+                extra_args.append((more, kwmore))
                 back_calls.append((state, tt, snapshot(w, state)))
                 ex.setattr(state, var, w.space.atom(f"back_{var}"))
             it.call_contracts[f"{cls}.{m_impl}"] = Native(impl_contract, m_impl)
@@ -178,6 +183,10 @@ def check_leapfrog_pairs(run, it):
             if not ok:
                 return
             bstate, bt, bsnap = back_calls[0]
+            plain = all(not m and not k for m, k in extra_args)
+            ctx.run.ob(tag + "/check-solves-exactly-as-a-reverse-step-would", core.DISCHARGED if plain else core.FAILED, "pyvc",
+                       detail="" if plain else f"the reverse solve receives extra arguments {[(len(m), sorted(k)) for m, k in extra_args]}: it is not the computation a reverse step performs",
+                       text=f"the reversibility check calls {m_impl}(state_copy, -t) with the arguments _step itself uses")
             on_copy = bstate is not st
             ctx.run.ob(tag + "/check-runs-on-a-copy", core.DISCHARGED if on_copy else core.FAILED, "pyvc",
                        detail="" if on_copy else "reverse solve applied to the step state itself")
@@ -241,7 +250,10 @@ def check_midpoint_pair(run, it):
         tag = P + f"{cls}._step_a_adj"
         back_calls = []
 
-        def impl_contract(ex, self_, state, tt):
+        extra_args = []
+
+        def impl_contract(ex, self_, state, tt, *more, **kwmore):
+            extra_args.append((more, kwmore))
             back_calls.append((state, tt, snapshot(w, state)))
             ex.setattr(state, "pos", w.space.atom("back_pos"))
             ex.setattr(state, "mom", w.space.atom("back_mom"))
@@ -264,6 +276,10 @@ def check_midpoint_pair(run, it):
         if not ok:
             return
         bstate, bt, bsnap = back_calls[0]
+        plain = all(not m and not k for m, k in extra_args)
+        ctx.run.ob(tag + "/check-solves-exactly-as-a-reverse-step-would", core.DISCHARGED if plain else core.FAILED, "pyvc",
+                   detail="" if plain else "the reverse solve receives extra arguments: it is not the computation a reverse step performs",
+                   text="the reversibility check calls _step_a_fwd(state_copy, -t) with the arguments _step itself uses")
         ctx.run.ob(tag + "/check-runs-on-a-copy", core.DISCHARGED if bstate is not st else core.FAILED, "pyvc")
         ctx.prove(tag + "/check-uses-reversed-time", to_real(bt) == -t)
         ctx.prove(tag + "/check-starts-from-updated-state", z3.And(vec_eq(bsnap["pos"], w.var(st, "pos")), vec_eq(bsnap["mom"], w.var(st, "mom"))))
@@ -413,5 +429,9 @@ def run(run_, tier):
     check_midpoint_pair(run_, it)
     check_constrained_inner(run_, it)
     lemma_palindrome(run_)
+    # the integrator-level argument treats the system's derivative methods as functions of the state: a method that returns a different value on a
+    # second evaluation at the same state (e.g. by accumulating in place into a cached array shared with copies) breaks reversal and writes the input state
+    from . import symla_systems
+    symla_systems.run_cases(run_, "c05_cases", keep=lambda oid: any(k in oid for k in ("stable-under-repeated-evaluation", "grad-cache-not-corrupted")))
     run_.extraction_drops.extend(sorted(it.dropped))
     run_.notes.append(f"paths explored: {it.paths}; solver seconds {it.solver_seconds:.2f}")
